@@ -300,6 +300,60 @@ REGISTRY.add(Contract(
     note="millidegrees scaled to degrees exactly once; unreadable sensors skipped; {} without sensors"))
 
 
+# --- _pslinux.sensors_fans ---------------------------------------------------------------------------------------------
+
+def setup_fans(it, cfg):
+    lay = cfg["layout"]
+    files, globs, vals = {}, {}, {}
+    g_flat, g_nested = f"{HW}/hwmon*/fan*_*", f"{HW}/hwmon*/device/fan*_*"
+    globs[g_flat], globs[g_nested] = [], []
+
+    def fan(base, key, chip, readable=True, label=None):
+        v = it.fresh(f"{key}_input", "Int")
+        vals[key] = v
+        files[base + "_input"] = ("int", v) if readable else ("oserror",)
+        files[base.rsplit("/", 1)[0] + "/name"] = ("text", chip + "\n")
+        if label is not None:
+            files[base + "_label"] = ("text", label + "\n")
+
+    if lay in ("flat", "two", "dead_and_live"):
+        fan(f"{HW}/hwmon0/fan1", "a", "thinkpad", readable=(lay != "dead_and_live"), label="cpu fan")
+        globs[g_flat] = [f"{HW}/hwmon0/fan1_input", f"{HW}/hwmon0/fan1_label"]
+        if lay in ("two", "dead_and_live"):
+            fan(f"{HW}/hwmon0/fan2", "b", "thinkpad")
+            globs[g_flat] += [f"{HW}/hwmon0/fan2_input"]
+    elif lay == "nested":
+        fan(f"{HW}/hwmon1/device/fan1", "a", "dell_smm")
+        globs[g_nested] = [f"{HW}/hwmon1/device/fan1_input"]
+    elif lay == "dead":                  # the chip's only fan cannot be read
+        fan(f"{HW}/hwmon0/fan1", "a", "deadchip", readable=False)
+        globs[g_flat] = [f"{HW}/hwmon0/fan1_input"]
+    elif lay == "dead_noname":           # ... and the chip has no name file either
+        fan(f"{HW}/hwmon0/fan1", "a", "x", readable=False)
+        del files[f"{HW}/hwmon0/name"]
+        globs[g_flat] = [f"{HW}/hwmon0/fan1_input"]
+    SysFS(it, files, globs=globs).install()
+    return {"args": {}, "spec": dict(vals, lay=lay), "values": list(vals.values())}
+
+
+REGISTRY.add(Contract(
+    "C19", LINUX_PY, "sensors_fans", setup=setup_fans, env=ENV,
+    configs=[{"layout": l} for l in ("none", "flat", "two", "nested", "dead", "dead_noname", "dead_and_live")],
+    ensures=[
+        "implies(lay in ('none', 'dead', 'dead_noname'), result == {})",      # nothing readable: {} (no empty chip entries)
+        "implies(lay == 'flat', set(result) == {'thinkpad'} and len(result['thinkpad']) == 1 and "
+        "result['thinkpad'][0].label == 'cpu fan' and result['thinkpad'][0].current == a)",
+        "implies(lay == 'two', set(result) == {'thinkpad'} and len(result['thinkpad']) == 2 and "
+        "result['thinkpad'][0].current == a and result['thinkpad'][1].current == b and result['thinkpad'][1].label == '')",
+        "implies(lay == 'nested', set(result) == {'dell_smm'} and result['dell_smm'][0].current == a)",
+        "implies(lay == 'dead_and_live', set(result) == {'thinkpad'} and len(result['thinkpad']) == 1 and "
+        "result['thinkpad'][0].current == b)",
+    ],
+    raises={}, canaries=["result == 5"], replay=None,
+    note="RPM of every readable fan under its chip; an unreadable fan is skipped, a chip with no readable fan does not "
+         "appear; either directory nesting"))
+
+
 # --- boot_time / cpu_stats: line loops over /proc/stat ----------------------------------------------------------------
 
 def setup_boot(it, cfg):
